@@ -74,6 +74,7 @@ let () =
   let cur = ref (from_header N0 []) in
   let cur_block : (block * (n list list -> n list)) option ref = ref None in
   let store : (n list * string) list ref = ref [] in
+  let vcache : vkey list ref = ref [] in
   let read_commit toks =
     match toks with
     | [h; r; bh; bt; bp; ns] ->
@@ -120,9 +121,12 @@ let () =
       Printf.printf "a %s %s %s %s %s\n" (b01 added) (str_adderr e) (string_of_n ps'.ps_count)
         (b01 (is_complete ps')) (str_bits (bit_array ps'));
       loop ()
-    | Some ["W"; idx; bz; ptotal; pindex; leaf; au] ->
-      let pr = { p_total = n_of_string ptotal; p_index = n_of_string pindex; p_leaf = unhex leaf; p_aunts = parse_aunts au } in
-      Printf.printf "w %s\n" (match part_from_proto_real (n_of_string idx) (unhex bz) pr with
+    | Some ["W"; idx; blen; ptotal; pindex; leaflen; aulens] ->
+      (* PartFromProto looks at sizes only: byte strings of the given lengths *)
+      let zeros k = List.init (int_of_string k) (fun _ -> N0) in
+      let aunts = if aulens = "-" then [] else List.map zeros (String.split_on_char ',' aulens) in
+      let pr = { p_total = n_of_string ptotal; p_index = n_of_string pindex; p_leaf = zeros leaflen; p_aunts = aunts } in
+      Printf.printf "w %s\n" (match part_from_proto_real (n_of_string idx) (zeros blen) pr with
           | WOk -> "ok" | WProof -> "proof" | WTooBig -> "toobig");
       loop ()
     | Some ["R"] ->
@@ -171,7 +175,7 @@ let () =
         | [c; t; e] -> (c = "1", int_of_string t, int_of_string e)
         | _ -> failwith "bad BLK" in
       let txroot = match next () with Some ["TXROOT"; r] -> unhex r | _ -> failwith "expected TXROOT" in
-      let txs = List.init ntx (fun _ -> match next () with Some ["TX"; t] -> unhex t | _ -> failwith "expected TX") in
+      let txs = List.init ntx (fun _ -> match next () with Some ["TX"; t] -> bytes_of_str t (* an opaque name of the transaction *) | _ -> failwith "expected TX") in
       let last = if has_commit then (match next () with Some ("CMT" :: t) -> Some (read_commit t) | _ -> failwith "expected CMT") else None in
       let evs = List.init nev (fun _ -> match next () with Some ["EV"; ok; bz] -> (unhex bz, ok = "1") | _ -> failwith "expected EV") in
       let b = { b_header = h; b_txs = txs; b_last = last; b_evs = evs } in
@@ -197,6 +201,21 @@ let () =
          (match validate_block sha kec tx_root st x b with
           | VsBasic VbPanic -> print_endline "vs PANIC"
           | cl -> Printf.printf "vs %s\n" (str_vs cl)));
+      loop ()
+    | Some ["XNEW"] -> vcache := []; print_endline "xnew"; loop ()
+    | Some ["XV"; initial; lasth; bh; bt; bp; app; valh; nextvalh; lvsize; lts; ltn; maxev; sigsok; ms; mn; propk] ->
+      let st = { st_initial = n_of_string initial; st_last_height = n_of_string lasth; st_last_bid = mk_bid bh bt bp;
+                 st_app = unhex app; st_valhash = unhex valh; st_nextvalhash = unhex nextvalh;
+                 st_lastvals_size = n_of_string lvsize; st_last_time = mk_time lts ltn; st_max_evidence = z_of_string maxev } in
+      let x = { x_sigs_ok = (sigsok = "1"); x_median = mk_time ms mn; x_proposer_known = (propk = "1"); x_evpool_ok = true } in
+      (match !cur_block with
+       | None -> failwith "XV without a block"
+       | Some (b, tx_root) ->
+         let (cl, c') = exec_validate sha kec tx_root !vcache st x b in
+         vcache := c';
+         (match cl with
+          | VsBasic VbPanic -> print_endline "xv PANIC"
+          | cl -> Printf.printf "xv %s\n" (str_vs cl)));
       loop ()
     | Some ["PP"; total] ->
       Printf.printf "pp %s\n" (b01 (proposal_parts_ok (n_of_string total)));
